@@ -14,9 +14,20 @@ def build(repo, findings):
     ast.require_text(r'pub struct Pipeline \{(?:[^}]|\n)*?pub bang: bool,', 'projected field Pipeline.bang')
     tr.require_text(r'pub enum TrapSignal \{(?:[^}]|\n)*?\bErr,', 'projected variant TrapSignal::Err')
     begin_ast(u)
-    u.raw('#[verifier::external_body]\npub struct PipelineRest { _p: u8 }\npub struct Pipeline { pub bang: bool, pub rest: PipelineRest }\n')
+    # the real Pipeline, Command and CompoundCommand (payloads opaque): which commands merely group others is read off the real enums
+    u.raw(''.join('#[verifier::external_body]\npub struct %s { _p: u8 }\n' % t for t in (
+        'PipelineTimed', 'SimpleCommand', 'RedirectList', 'FunctionDefinition', 'ArithmeticCommand', 'ArithmeticForClauseCommand', 'BraceGroupCommand',
+        'SubshellCommand', 'ForClauseCommand', 'CaseClauseCommand', 'IfClauseCommand', 'WhileOrUntilClauseCommand', 'CoprocessCommand', 'ExtendedTestExprCommand')))
+    u.add(ast.item(r'^pub struct Pipeline ', 'Pipeline').r1(keep_derive=()))
+    u.add(ast.item(r'^pub enum Command ', 'Command').r1(keep_derive=()))
+    u.add(ast.item(r'^pub enum CompoundCommand ', 'CompoundCommand').r1(keep_derive=()))
     end_ast(u, 'C03')
     u.prelude('exec/pipeline_spec.rs')
+    # ---- which pipelines are one grouping compound command
+    g = interp.item(r'^fn pipeline_only_groups_commands\(', 'pipeline_only_groups_commands').r1()
+    g.sig('pipeline_only_groups_commands', ret='r', ensures=[
+        C('C03 only-a-lone-brace-group-loop-if-or-case-counts-as-grouping', 'r == groups_only(*pipeline)')])
+    u.add(g)
     fn = 'pipeline_core'
     imp = interp.item(r'^impl Execute for ast::Pipeline ', 'impl Execute for ast::Pipeline', with_attrs=False)
     from vx.extract import Source
@@ -45,5 +56,16 @@ def build(repo, findings):
     u.raw(FOOTER)
     u.assume('external_body', 'spawn_pipeline_processes / wait_for_pipeline_processes_and_update_status are abstract children (one event each; pipefail folding inside wait is NOT verified); Shell::apply_errexit_if_enabled and invoke_trap_handler carry the contracts proved for them in U3 / the traps unit; the timing prologue/epilogue of Pipeline::execute (closures, write!) is outside the slice')
     u.assume('uninterp', 'Shell::traps_spec, errexit_on, TrapHandlerConfig::handles_err')
-    u.expected_min_fns = 15
+    u.expected_min_fns = 16
+    from .common import replay_scripts
+    u.counterexample = replay_scripts(repo, [
+        ('set -e; for i in 1; do false && true; done; echo after', 'after\n'),
+        ('set -e; { ! true; }; echo after', 'after\n'),
+        ('set -e; if true; then false && true; fi; case x in x) false && true;; esac; echo after', 'after\n'),
+        ('set -e; ( false && true ); echo after', ''),
+        ('set -e; { (( 0 )); }; echo after', ''),
+        ('set -e; true | { false && true; }; echo after', ''),
+        ('trap "echo ERR" ERR; { false; }; for i in 1; do false && true; done; echo "after $?"', 'ERR\nafter 1\n'),
+        ('set -e; ! false; echo a; ! true; echo b; false; echo c', 'a\nb\n'),
+    ])
     return u
